@@ -369,14 +369,14 @@ class Program:
         return [c for c in self.classes.values() if ci in self.mro(c) and c is not ci]
 
     def all_functions(self):
-        return list(self.functions.values())
+        return [f for k, f in self.functions.items() if not k.endswith('@overload')]
 
     def stats(self):
         nlines = sum(m.source.count('\n') + 1 for m in self.modules.values())
         return {
             'modules': len(self.modules),
             'lines': nlines,
-            'functions': len([f for f in self.functions.values()]),
+            'functions': len(self.all_functions()),
             'lambdas': len(self.lambdas),
             'classes': len(self.classes),
         }
